@@ -168,11 +168,6 @@ class Ex:
         return ".cls .%s" % n if n else None
 
 
-def _raised_class(call_src, ex, mod_file, where, tree_cache):
-    """class raised by `raise <expr>` / by a NoReturn helper"""
-    return None
-
-
 # ----------------------------------------------------------------------------- handler body analysis
 def _helper_raises(ex: Ex, helper, where):
     """class raised by raise_unexpected_value / raise_union_unexpected_value / returned by argument_error"""
@@ -530,6 +525,56 @@ def generate(problems):
     else:
         missing("yamlLoad", "yaml_load handler around yaml.load")
 
+    # --- calls of failing steps that sit OUTSIDE every `try .. except: self.error(..)` of their method --------
+    RISKY = {"_parse_defaults_and_environ", "merge_config", "_apply_actions", "_parse_common", "parse_known_args", "_positional_optionals",
+             "_load_config_parser_mode", "Path", "get_content", "parse_string", "parse_path", "recreate_branches", "_load_env_vars", "get_defaults",
+             "validate", "load_value", "change_to_path_dir"}
+    uncovered = {}
+
+    def calls_error(h):
+        return any(isinstance(c, ast.Call) and isinstance(c.func, ast.Attribute) and c.func.attr == "error" and isinstance(c.func.value, ast.Name)
+                   and c.func.value.id == "self" for c in ast.walk(ast.Module(body=h.body, type_ignores=[])))
+
+    def scan(stmts, covered, acc):
+        for st in stmts:
+            if isinstance(st, ast.Try):
+                cov = covered or any(calls_error(h) for h in st.handlers)
+                scan(st.body, cov, acc)
+                for h in st.handlers:
+                    scan(h.body, covered, acc)
+                scan(st.orelse, covered, acc)
+                scan(st.finalbody, covered, acc)
+                continue
+            if isinstance(st, (ast.FunctionDef, ast.AsyncFunctionDef, ast.ClassDef)):
+                continue
+            subs = []
+            for field in ("body", "orelse"):
+                subs += getattr(st, field, []) if isinstance(getattr(st, field, None), list) else []
+            heads = [st] if not subs else []
+            if subs:
+                # the header expressions of with / if / for / while
+                for field in ("items", "test", "iter"):
+                    v = getattr(st, field, None)
+                    if v is not None:
+                        heads += v if isinstance(v, list) else [v]
+            for hnode in heads:
+                for c in ast.walk(hnode):
+                    if isinstance(c, ast.Call):
+                        name = c.func.id if isinstance(c.func, ast.Name) else (c.func.attr if isinstance(c.func, ast.Attribute) else None)
+                        if name in RISKY and not covered and name not in acc:
+                            acc.append(name)
+            if subs:
+                scan(subs, covered, acc)
+
+    for meth, lean in (("parse_args", "parseArgs"), ("parse_object", "parseObject"), ("parse_string", "parseString"), ("parse_env", "parseEnv"), ("parse_path", "parsePath")):
+        fn = _func(core, "ArgumentParser." + meth)
+        acc = []
+        if fn is not None:
+            scan(fn.body, False, acc)
+        else:
+            problems.append("ExcFlow: ArgumentParser.%s not found" % meth)
+        uncovered[lean] = acc
+
     # --- error() -----------------------------------------------------------------------------------
     fn = _func(core, "ArgumentParser.error")
     raises_no_exit, exit_status, usage, errline = "none", "none", "false", "false"
@@ -638,6 +683,11 @@ def generate(problems):
     out.append("def loaderExc : Mode → List Exc")
     for mode in ("yaml", "json", "toml", "jsonnet"):
         out.append("  | .%s => [%s]" % (mode, ", ".join("." + n for n in loader_exc[mode])))
+    out.append("")
+    out.append("/-- failing steps a public method calls outside every `try .. except ..: self.error(..)` of its body -/")
+    out.append("def uncovered : Method → List String")
+    for lean in ("parseArgs", "parseObject", "parseString", "parseEnv", "parsePath"):
+        out.append("  | .%s => [%s]" % (lean, ", ".join('"%s"' % n for n in uncovered[lean])))
     out.append("")
     out.append("def tables : Tables where")
     out.append("  ancestors := ancestors")
